@@ -337,6 +337,78 @@ def unroll_guarded_unpacking(tree):
     return count
 
 
+def unroll_genexp_loops(tree):
+    """Normalisation: ``for T in (E for a in xs for b in ys if c): BODY`` - the
+    generator expression written in the loop header or bound to a local by the
+    statement just before and used nowhere else - is read as the nested loops
+    it abbreviates: ``for a in xs: for b in ys: if c: T = E; BODY``.  BODY must
+    not break (a break would have to leave all of the loops)."""
+    import copy
+    count = 0
+    for fn in ast.walk(tree):
+        if not isinstance(fn, (ast.FunctionDef, ast.AsyncFunctionDef)):
+            continue
+        for holder in ast.walk(fn):
+            for field in ('body', 'orelse', 'finalbody'):
+                block = getattr(holder, field, None)
+                if not (isinstance(block, list) and block and isinstance(block[0], ast.stmt)):
+                    continue
+                new = []
+                for st in block:
+                    gen, drop_prev = None, False
+                    if isinstance(st, ast.For) and not st.orelse:
+                        if isinstance(st.iter, ast.GeneratorExp):
+                            gen = st.iter
+                        elif isinstance(st.iter, ast.Name) and new and isinstance(new[-1], ast.Assign) \
+                                and len(new[-1].targets) == 1 and isinstance(new[-1].targets[0], ast.Name) \
+                                and new[-1].targets[0].id == st.iter.id \
+                                and isinstance(new[-1].value, ast.GeneratorExp) \
+                                and sum(1 for n in ast.walk(fn) if isinstance(n, ast.Name)
+                                        and n.id == st.iter.id) == 2:
+                            gen, drop_prev = new[-1].value, True
+                    if gen is None or any(g.is_async for g in gen.generators):
+                        new.append(st)
+                        continue
+                    # no break of this loop in BODY; names of the generator do not clash with BODY stores
+                    def own_breaks(body):
+                        found = []
+
+                        def walk(n, in_loop):
+                            for c in ast.iter_child_nodes(n):
+                                if isinstance(c, (ast.FunctionDef, ast.Lambda, ast.ClassDef)):
+                                    continue
+                                if isinstance(c, ast.Break) and not in_loop:
+                                    found.append(c)
+                                walk(c, in_loop or isinstance(c, (ast.For, ast.While)))
+                        for b in body:
+                            if isinstance(b, ast.Break):
+                                found.append(b)
+                            walk(b, isinstance(b, (ast.For, ast.While)))
+                        return found
+                    gen_names = {n.id for g in gen.generators for n in ast.walk(g.target) if isinstance(n, ast.Name)}
+                    other_uses = {n.id for n in ast.walk(fn) if isinstance(n, ast.Name) and n.id in gen_names
+                                  and not any(n is x for x in ast.walk(gen))}
+                    tgt_names = {n.id for n in ast.walk(st.target) if isinstance(n, ast.Name)}
+                    if own_breaks(st.body) or (other_uses - tgt_names):
+                        new.append(st)
+                        continue
+                    if drop_prev:
+                        new.pop()
+                    same = ast.unparse(st.target).strip('()') == ast.unparse(gen.elt).strip('()')
+                    inner = ([] if same else [ast.copy_location(ast.Assign(targets=[st.target], value=gen.elt), st)]) \
+                        + list(st.body)
+                    for g in reversed(gen.generators):
+                        for cond in reversed(g.ifs):
+                            inner = [ast.copy_location(ast.If(test=cond, body=inner, orelse=[]), st)]
+                        inner = [ast.copy_location(ast.For(target=g.target, iter=g.iter, body=inner, orelse=[]), st)]
+                    new.extend(inner)
+                    count += 1
+                setattr(holder, field, new)
+    if count:
+        ast.fix_missing_locations(tree)
+    return count
+
+
 def unroll_record_comprehensions(tree):
     """Normalisation: ``rows = [(a, f(a)) for a in xs if c]`` - a list of tuple
     records built by one comprehension into a local - is read as the loop it
@@ -528,7 +600,7 @@ def prune_constant_tests(tree):
     return count
 
 
-def flatten_private_bases(tree):
+def flatten_private_bases(tree, elsewhere=''):
     """Normalisation: a private intermediate base class of the module
     (``class _Common(Base)`` with ``class A(_Common)``, ``class B(_Common)``)
     that only serves to share members is read as if every subclass defined
@@ -541,7 +613,16 @@ def flatten_private_bases(tree):
         classes = {st.name: st for st in tree.body if isinstance(st, ast.ClassDef)}
         done = False
         for pname, pcls in list(classes.items()):
-            if not (pname.startswith('_') and not pname.startswith('__')):
+            private = pname.startswith('_') and not pname.startswith('__')
+            # a class without a leading underscore counts as well when nothing outside
+            # this module mentions it and it has no constructor or class-level data of
+            # its own: a mixin / intermediate class that only carries shared methods
+            import re as _re
+            shared_only = not _re.search(r'\b%s\b' % _re.escape(pname), elsewhere) and all(
+                isinstance(m, ast.FunctionDef) and not m.name.startswith('__')
+                or isinstance(m, ast.Pass) or (isinstance(m, ast.Expr) and isinstance(m.value, ast.Constant))
+                for m in pcls.body)
+            if not (private or shared_only):
                 continue
             subs = [c for c in classes.values() if any(isinstance(b, ast.Name) and b.id == pname for b in c.bases)]
             if not subs:
@@ -1335,7 +1416,7 @@ def flatten_guards(tree):
 
 
 class Module:
-    def __init__(self, name, path):
+    def __init__(self, name, path, elsewhere=''):
         self.name = name
         self.path = path
         with open(path, encoding='utf-8') as handle:
@@ -1345,13 +1426,13 @@ class Module:
         except SyntaxError as err:  # a tree that does not compile
             raise AnalysisError('cannot parse {0}: {1}'.format(path, err))
         from .inline import inline_private_helpers
-        self.flattened_bases = flatten_private_bases(self.tree)
-        self.inlined_helpers = inline_private_helpers(self.tree)
+        self.flattened_bases = flatten_private_bases(self.tree, elsewhere)
+        self.inlined_helpers = inline_private_helpers(self.tree, name, elsewhere)
         self.pruned_tests = prune_constant_tests(self.tree)
         self.unrolled_callee_loops = unroll_callee_loops(self.tree)
         if self.unrolled_callee_loops:
             # calls that became visible by unrolling
-            self.inlined_helpers += inline_private_helpers(self.tree)
+            self.inlined_helpers += inline_private_helpers(self.tree, name, elsewhere)
         self.unrolled_comprehensions = unroll_constant_comprehensions(self.tree)
         self.unrolled_comprehensions += unroll_guarded_unpacking(self.tree)
         self.folded_unpackings = fold_target_unpacking(self.tree)
@@ -1362,6 +1443,7 @@ class Module:
             self.pruned_tests += prune_constant_tests(self.tree)
         self.unrolled_joins = unroll_join_accumulations(self.tree) + unroll_join_tails(self.tree)
         self.unrolled_records = unroll_record_comprehensions(self.tree)
+        self.unrolled_records += unroll_genexp_loops(self.tree)
         self.propagated_constants = propagate_module_constants(self.tree)
         self.inlined_aliases = inline_attribute_aliases(self.tree)
         self.inlined_temporaries = inline_test_temporaries(self.tree)
@@ -1445,7 +1527,17 @@ class Program:
             name = fname[:-3]
             if name in SKIP_MODULES:
                 continue
-            self.modules[name] = Module(name, os.path.join(self.pkg, fname))
+            # what the other files of the package say (to tell a class that is local
+            # to its module from one that others use)
+            elsewhere = []
+            for other in sorted(os.listdir(self.pkg)):
+                if other.endswith('.py') and other != fname:
+                    try:
+                        with open(os.path.join(self.pkg, other), encoding='utf-8') as handle:
+                            elsewhere.append(handle.read())
+                    except OSError:
+                        pass
+            self.modules[name] = Module(name, os.path.join(self.pkg, fname), '\n'.join(elsewhere))
         self._cfg = None
         self._bonds = None
 
